@@ -169,3 +169,25 @@ class TcpStream:
         return [tcp_frame(f, "c", self.base["c"] - 1, 0, b"", SYN),
                 tcp_frame(f, "s", self.base["s"] - 1, self.base["c"], b"", SYN | ACK),
                 tcp_frame(f, "c", self.base["c"], self.base["s"], b"", ACK)]
+
+
+def set_tcp_flags(frame: bytes, flags: int) -> bytes:
+    """the same Ethernet / IP / TCP frame with other TCP flags (checksum recomputed); untagged IPv4 / IPv6 without extension headers only"""
+    et = struct.unpack("!H", frame[12:14])[0]
+    if et == 0x0800:
+        ihl = (frame[14] & 15) * 4
+        tot = struct.unpack("!H", frame[16:18])[0] or (len(frame) - 14)
+        src, dst, off = frame[26:30], frame[30:34], 14 + ihl
+        seg = bytearray(frame[off:14 + tot])
+        tail = frame[14 + tot:]
+    elif et == 0x86DD and frame[20] == 6:
+        plen = struct.unpack("!H", frame[18:20])[0]
+        src, dst, off = frame[22:38], frame[38:54], 54
+        seg = bytearray(frame[off:off + plen])
+        tail = frame[off + plen:]
+    else:
+        return frame
+    seg[13] = flags
+    seg[16:18] = b"\x00\x00"
+    seg[16:18] = struct.pack("!H", csum16(pseudo(src, dst, 6, len(seg)) + bytes(seg)))
+    return frame[:off] + bytes(seg) + tail
